@@ -69,11 +69,11 @@ def _nest(d, tag):
     return node
 
 
-def depth_ladder(b, v, cs, tier):
+def depth_ladder(b, v, cs, tier, shape_in_zone=False):
     """The same comparison at nesting depths TLC's bounded trees do not reach (the walkers and the order-preserving reader are recursive):
     a deep document outside the zones (top level, attr, a command field that is no zone) and inside one (filter: keys stay, leaves change)."""
     import tempfile, shutil
-    depths = [1, 2, 5, 9, 17, 28, 30, 31, 32, 33, 34, 35, 40, 63, 64, 65, 100, 127, 128, 129, 200] if tier == "quick" else list(range(1, 140)) + [200, 255, 256, 257, 500, 1000]
+    depths = [1, 2, 5, 9, 17, 28, 30, 31, 32, 33, 34, 35, 40, 63, 64, 65, 100, 127, 128, 129, 199, 200, 201, 202, 250, 300] if tier == "quick" else list(range(1, 140)) + [199, 200, 201, 202, 255, 256, 257, 500, 1000]
     lines, meta = [], []
     for d in depths:
         for pos in ("top", "attr", "cmdfield", "filter", "documents"):
@@ -113,6 +113,8 @@ def depth_ladder(b, v, cs, tier):
                     bad = None
                     if kind == 'shape' and not zone:
                         bad = "outside-zone structure changed"
+                    elif kind == 'shape' and shape_in_zone:
+                        bad = "structure changed inside a zone (C03: keys, nesting and leaf types stay)"
                     elif kind == 'key' and ev[2] != ev[3] and not (zone and cfg.eager):
                         bad = "key changed (order or spelling)"
                     elif kind == 'leaf' and ev[2] != ev[3] and not zone and path[:2] not in (("attr", "ns"), ("attr", "remote")) \
